@@ -280,6 +280,17 @@ def run(run, driver_ok=True, deep=False):  # pylint: disable=redefined-outer-nam
                 continue
             run.count('certificates', kind)
             cases.append({'kind': 'key', 'data': hx(data), 'canonical': True})
+    # certificates with out-of-the-ordinary validity instants (beyond 2^32, at and beyond 9999-12-31, the sentinel):
+    # whatever is accepted must keep the fingerprint of the blob on the wire
+    for name, gen in getattr(gen_ssh, 'RAW_INPUTS', []):
+        for _ in range(n_cert):
+            try:
+                data = bytes(gen(run.rng))
+            except Exception as exc:  # pylint: disable=broad-except
+                run.count('generator_errors', '{}:{}'.format(name, type(exc).__name__))
+                continue
+            run.count('raw_certificates', name)
+            cases.append({'kind': 'key', 'data': hx(data), 'canonical': True})
     for c in cases:
         run.count('ops', c['kind'])
         if c['data'].strip('0-'):
